@@ -26,8 +26,8 @@ section Generic
 variable {K Q : Type} [Add K] [Sub K] [Mul K] [Div K] [Neg K] [OfNat K 0] [OfNat K 1]
 variable [LT Q] [DecidableLT Q] [BEq Q] [OfNat Q 0]
 
-def matOfArr (n : Nat) (a : Array K) : Mat n K := (⟨fun i j => a.getD (i.1 * n + j.1) (0 : K)⟩ : Mat n K).memo
-def vecOfArr (n : Nat) (a : Array K) : Vec n K := (⟨fun i => a.getD i.1 (0 : K)⟩ : Vec n K).memo
+def matOfArr (n : Nat) (a : Array K) : Mat n K := Mat.ofFn fun i j => a.getD (i.1 * n + j.1) (0 : K)
+def vecOfArr (n : Nat) (a : Array K) : Vec n K := Vec.ofFn fun i => a.getD i.1 (0 : K)
 def matToList {n : Nat} (A : Mat n K) : List K :=
   (List.finRange n).flatMap fun i => (List.finRange n).map fun j => A.f i j
 def vecToList {n : Nat} (v : Vec n K) : List K := (List.finRange n).map v.f
